@@ -21,9 +21,29 @@
                                           case of known finding K1 (the library panics inside
                                           draw for 0 samples; the model returns None, i.e. the
                                           model never produces the inner panic)
-     (17 4 ty data)                       Gaussian::approximating(data) -> outcome (mean variance) *)
-From Coq Require Import List ZArith NArith Bool.
+     (17 4 ty data)                       Gaussian::approximating(data) -> outcome (mean variance)
+   FLOAT TIER (an oracle for the VALUES, not a model of IEEE arithmetic): fty = 0 (f64) | 1 (f32);
+   a number is (m e) = the decimal m * 10^e, rounded to the float type by the harness.  The
+   harness compares every value with the real-number closed form (the right-hand sides of
+   C17_pdf_real / C17_draw_values_real / C17_mv_draw_real) inside a rounding budget and reports
+   0/1 flags; what the MODEL contributes is presence and consumption, computed by the
+   transcribed `draw` / `mvt_draw` themselves on a source of the same length.
+     (17 6 fty mean var (x ..))           density at every x; var > 0
+                                          -> (closed-form symmetric maximal-at-mean forms) = (1 1 1 1)
+     (17 7 fty mean var k source)         draw k samples; source numbers >= 0
+                                          -> (present consumed values-ok)
+     (17 8 fty k mean cov source)         multivariate draw of k >= 1 samples, mean a list of n
+                                          numbers, cov n rows of n numbers (symmetric; the
+                                          generator keeps every pivot away from 0)
+                                          -> (present consumed values-ok)
+                                          presence of a factor = every pivot of Model/Decomp.v's
+                                          LDL^T over the rationals (exact, no square root) is
+                                          positive, i.e. the covariance is positive definite
+                                          (C17_mv_draw_present_iff_posdef); consumption = what
+                                          `mvt_draw` consumes on a covariance it accepts / rejects *)
+From Coq Require Import List ZArith NArith Bool QArith.
 From EasyML Require Import Base.Sx Model.Num Model.Stats Model.Gaussian.
+From EasyML Require Model.Decomp.
 Import ListNotations.
 
 Section Run.
@@ -93,8 +113,69 @@ Definition c17_run (op : Z) (args : list sx) : sx :=
   end.
 End Run.
 
+(* ---- float tier ---- *)
+Definition dme (s : sx) : option (Z * Z) := dpair dZ dZ s.
+Definition me_q (p : Z * Z) : Q :=
+  if (0 <=? snd p)%Z then inject_Z (fst p * 10 ^ snd p)
+  else Qred (Qmake (fst p) (Z.to_pos (10 ^ (- snd p)))).
+Definition fty_ok (t : Z) : bool := ((t =? 0) || (t =? 1))%Z.
+Definition zeros {A} (l : list A) : list Q := map (fun _ => inject_Z 0) l.
+
+(* every LDL^T pivot positive, over the rationals *)
+Definition posdef_q (cov : list (list Q)) : bool :=
+  match Decomp.ldlt Qops cov with
+  | Some (_, d) =>
+      forallb (fun i => q_ltb (inject_Z 0) (nth i (nth i d []) (inject_Z 0))) (seq 0 (length cov))
+  | None => false
+  end.
+
+Definition c17_float (op : Z) (args : list sx) : sx :=
+  match op, args with
+  | 6%Z, [mean; var; xs] =>
+      match dme mean, dme var, dlist dme xs with
+      | Some _, Some v, Some _ =>
+          if (0 <? fst v)%Z then SL [SZ 1; SZ 1; SZ 1; SZ 1] else bad_case
+      | _, _, _ => bad_case
+      end
+  | 7%Z, [mean; var; k; src] =>
+      match dme mean, dme var, dN k, dlist dme src with
+      | Some _, Some v, Some k, Some src =>
+          if negb (0 <? fst v)%Z || (1048576 <? k)%N || existsb (fun p => (fst p <? 0)%Z) src
+          then bad_case
+          else
+            let source := zeros src in
+            let r := draw Qops (mkGaussian (inject_Z 0) (inject_Z 1)) source k in
+            SL [sbool (match fst r with Some _ => true | None => false end);
+                consumed source (snd r); SZ 1]
+      | _, _, _, _ => bad_case
+      end
+  | 8%Z, [k; mean; cov; src] =>
+      match dN k, dlist dme mean, dlist (dlist dme) cov, dlist dme src with
+      | Some k, Some mean, Some cov, Some src =>
+          let n := length mean in
+          if (k =? 0)%N || (65536 <? k)%N || Nat.eqb n 0 || negb (Nat.eqb (length cov) n)
+             || negb (forallb (fun r => Nat.eqb (length r) n) cov)
+             || existsb (fun p => (fst p <? 0)%Z) src
+          then bad_case
+          else
+            let pd := posdef_q (map (map me_q) cov) in
+            (* a covariance the transcribed Cholesky accepts (identity) / rejects (zero) *)
+            let standin := map (fun i => map (fun j =>
+                             inject_Z (if pd && Nat.eqb i j then 1 else 0)) (seq 0 n)) (seq 0 n) in
+            let source := zeros src in
+            let r := mvt_draw Qops (zeros mean, standin) source k 0 1 in
+            SL [sbool (match fst r with Some _ => true | None => false end);
+                consumed source (snd r); SZ 1]
+      | _, _, _, _ => bad_case
+      end
+  | _, _ => bad_case
+  end.
+
 Definition run_c17 (args : list sx) : sx :=
   match args with
+  | SZ 6%Z :: SZ fty :: rest => if fty_ok fty then c17_float 6 rest else bad_case
+  | SZ 7%Z :: SZ fty :: rest => if fty_ok fty then c17_float 7 rest else bad_case
+  | SZ 8%Z :: SZ fty :: rest => if fty_ok fty then c17_float 8 rest else bad_case
   | SZ op :: SZ ty :: rest => with_ty ty (fun R ops => c17_run ops op rest)
   | _ => bad_case
   end.
